@@ -156,6 +156,9 @@ AIMED = {
     'deprecated_sorted_vector': 'table K { k:int (key); }\nstruct S { a:int (key); }\ntable T { a:[K] (deprecated, sorted); b:[S] (sorted, deprecated); c:[int] (sorted, deprecated); d:[K] (sorted); }\n',
     'keys_nested_unionvec': 'table K { k:string (key); n:int (key); }\nstruct S { a:int (key); b:float; }\nunion U { K, S }\n'
                             'table T { n:[ubyte] (nested_flatbuffer: "K"); m:[ubyte] (nested_flatbuffer: "S"); u:[U]; ks:[K] (sorted); ss:[S] (sorted); }\nroot_type T;\n',
+    'enum_aliases': 'enum E:int { A = 1, B = 1, C = 0, D = 1 }\nenum F:ubyte (bit_flags) { X = 1, Y = 1 }\nenum G:bool { N, M = false }\n'
+                    'table T { e:E = B; f:F = X; g:G = N; v:[E]; }\nstruct S { e:E; f:F; }\nroot_type T;\n',
+    'empty_doc_comment': '/**/table T { a:int; }\n/**/ struct S { /**/ a:int; /**/ }\n/// doc\nenum E:int { /**/ A, /** x */ B }\n/* plain */ /**/\n',
     'everything_small': 'namespace A.B;\nenum E:ushort (bit_flags) { X, Y = 4 }\nstruct S (force_align: 16) { e:E; a:[char:3]; }\nnamespace ;\n'
                         'table T { s:A.B.S (required); e:A.B.E = Y; o:long = null; f:float = -0.5 (id: 3); t:T (id: 2); x:[A.B.S] (id: 4); }\n'
                         .replace('(required)', '(required, id: 0)').replace('= Y;', '= Y (id: 1);').replace('= null;', '= null (id: 5);'),
